@@ -2,6 +2,7 @@ package main
 
 import (
 	"fmt"
+	"html"
 	"strings"
 
 	"verifharness/internal/gen"
@@ -31,6 +32,13 @@ func dynamicSites() []site {
 		{"script-verb", func() *gen.Node { return &gen.Node{Kind: gen.KScript, Expr: "s0", Verb: "%s"} }, false},
 		{"interp", func() *gen.Node { return txt(st("a "), dyn("s0"), st(" b")) }, false},
 		{"interp-verb", func() *gen.Node { return txt(st("a "), gen.Part{Expr: "s0", Verb: "%5s"}, st(" b")) }, false},
+		// a numeric verb does not make the value harmless: with an operand of another type Go prints the value
+		// itself (`%!d(string=…)`), and `%c` prints any rune
+		{"script-verb-numeric", func() *gen.Node { return &gen.Node{Kind: gen.KScript, Expr: "s0", Verb: "%d"} }, false},
+		{"interp-verb-numeric", func() *gen.Node { return txt(st("a "), gen.Part{Expr: "s0", Verb: "%d"}, st(" b")) }, false},
+		{"elem-script-verb-char", func() *gen.Node {
+			return el(&gen.Node{Tag: "p", Inline: &gen.Node{Kind: gen.KScript, Expr: "s0", Verb: "%c"}})
+		}, false},
 		{"elem-inline-script", func() *gen.Node { return el(&gen.Node{Tag: "p", Inline: &gen.Node{Kind: gen.KScript, Expr: "s0"}}) }, false},
 		{"elem-inline-interp", func() *gen.Node { return el(&gen.Node{Tag: "p", Inline: txt(st("t "), dyn("s0"))}) }, false},
 		{"attr-value", func() *gen.Node {
@@ -130,7 +138,7 @@ var c02Strings = []string{"neutral", `<b>`, `a"b`, `it's`, `&amp;`, `</p><script
 
 func c02(c *Ctx) {
 	c.Rep.TieObs = []string{"O-render", "O-rt (helpers, see C19)"}
-	c.Rep.Rule = "every kind of dynamic site (21) x every enclosing context (9) as its own template, rendered for every string of the adversarial alphabet (HTML metacharacters, both quotes, backslashes, controls, multi-byte and astral runes, marker look-alikes; thorough adds all 2-symbol strings); oracle: (1) generator intent: escaped sites carry html-escaped v, unescaped sites exactly v; (2) for escaped sites the token structure equals the placeholder's and v appears entity-decoded where the placeholder was; distinct = distinct (site, context, value)"
+	c.Rep.Rule = "every kind of dynamic site (24) x every enclosing context (9) as its own template, rendered for every string of the adversarial alphabet (HTML metacharacters, both quotes, backslashes, controls, multi-byte and astral runes, marker look-alikes; thorough adds all 2-symbol strings); oracle: (1) generator intent: escaped sites carry html-escaped v, unescaped sites exactly v; (2) for escaped sites the token structure equals the placeholder's and v appears entity-decoded where the placeholder was; distinct = distinct (site, context, value)"
 	f, names := siteFile()
 	prepFile(f)
 	p, src := f.Print()
@@ -380,12 +388,13 @@ var c04Strings = []string{"plain", `ends in \n`, `n\`, "nn", `\\n`, "x#", "##", 
 func c04(c *Ctx) {
 	c.tieQuote()
 	c.Rep.TieObs = []string{"O-emit.text (generated Go, byte for byte)", "O-render", "O-std: goLiteral (strconv.Quote) vs quoteBody, and strconv.Unquote vs litDecode, on bytes / runes at every IsPrint boundary / random byte strings"}
-	c.Rep.Rule = "every static-content position of the grammar (18) x the strings of the adversarial alphabet that the position's documented lexical restrictions admit, one template per (position, string); oracle: the generated file must parse/gofmt/build, and the rendered output must equal the generator intent (raw positions byte for byte; escaped positions character for character once entities are decoded); distinct = distinct (position, string)"
+	c.Rep.Rule = "every static-content position of the grammar (18) x the strings of the adversarial alphabet that the position's documented lexical restrictions admit, one template per (position, string, layout: one-line attribute lists with LF, multi-line attribute lists with LF, multi-line with CRLF); oracle: the generated file must parse/gofmt/build, and the rendered output must equal the generator intent (raw positions byte for byte; escaped positions character for character once entities are decoded); distinct = distinct (position, string)"
 	f := &gen.File{Package: "main"}
 	f.Chrome = append(f.Chrome, gen.Chrome+"\nfunc f2(a, b string) string { return a + b }\n")
 	type meta struct {
-		site string
-		s    string
+		site   string
+		s      string
+		layout int
 	}
 	metas := map[string]meta{}
 	siteEscaped := map[string]bool{}
@@ -405,30 +414,45 @@ func c04(c *Ctx) {
 		}
 	}
 	// one file per site kind, so that a site whose splice breaks the generated Go does not take the others down
+	// every position is written in three layouts: one-line attribute lists and LF line ends; attribute lists
+	// spread over several lines (the position is then the last thing on its line); the same with CRLF line ends
 	var cases []*RenderCase
-	for si, ss := range staticSites() {
-		f = &gen.File{Package: "main"}
-		f.Chrome = append(f.Chrome, gen.Chrome+"\nfunc f2(a, b string) string { return a + b }\n")
-		var names []string
-		for vi, v := range vals {
-			if !ss.ok(v) {
+	for layout := 0; layout < 3; layout++ {
+		for si, ss := range staticSites() {
+			f = &gen.File{Package: "main"}
+			f.Chrome = append(f.Chrome, gen.Chrome+"\nfunc f2(a, b string) string { return a + b }\n")
+			var names []string
+			for vi, v := range vals {
+				if !ss.ok(v) {
+					continue
+				}
+				if layout > 0 && c.Thorough() && vi >= len(c04Strings) && c.R.Intn(4) != 0 {
+					continue
+				}
+				name := fmt.Sprintf("T%dV%dL%d", si, vi, layout)
+				nd := ss.node(v)
+				if layout > 0 {
+					nd.AttrLayout = 2
+				}
+				f.Templates = append(f.Templates, &gen.Template{Name: name, Sig: gen.Sig, Body: []*gen.Node{nd, {Kind: gen.KElem, Tag: "hr"}}})
+				names = append(names, name)
+				metas[name] = meta{ss.name, v, layout}
+			}
+			if len(names) == 0 {
 				continue
 			}
-			name := fmt.Sprintf("T%dV%d", si, vi)
-			f.Templates = append(f.Templates, &gen.Template{Name: name, Sig: gen.Sig, Body: []*gen.Node{ss.node(v), {Kind: gen.KElem, Tag: "hr"}}})
-			names = append(names, name)
-			metas[name] = meta{ss.name, v}
+			prepFile(f)
+			p, src := f.Print()
+			if layout == 2 {
+				f.CRLF = true
+				src = strings.ReplaceAll(src, "\n", "\r\n")
+			}
+			rc := &RenderCase{File: f, Printer: p, Src: src, Names: names, Envs: []rt.Env{{S0: "s", B0: true, O0: rt.Obj{ID: "i", Class: "oc"}}}}
+			for _, n := range names {
+				rc.Jobs = append(rc.Jobs, rt.Job{Name: n})
+			}
+			cases = append(cases, rc)
 		}
-		if len(names) == 0 {
-			continue
-		}
-		prepFile(f)
-		p, src := f.Print()
-		rc := &RenderCase{File: f, Printer: p, Src: src, Names: names, Envs: []rt.Env{{S0: "s", B0: true, O0: rt.Obj{ID: "i", Class: "oc"}}}}
-		for _, n := range names {
-			rc.Jobs = append(rc.Jobs, rt.Job{Name: n})
-		}
-		cases = append(cases, rc)
 	}
 	// a file whose generated Go does not build is split into single-template files to find the culprits
 	c.renderBoth(cases)
@@ -441,6 +465,10 @@ func c04(c *Ctx) {
 			f1 := &gen.File{Package: "main", Chrome: []string{gen.Chrome + "\nfunc f2(a, b string) string { return a + b }\n"}, Templates: []*gen.Template{t}}
 			prepFile(f1)
 			p, src := f1.Print()
+			if strings.Contains(rc.Src, "\r\n") {
+				f1.CRLF = true
+				src = strings.ReplaceAll(src, "\n", "\r\n")
+			}
 			singles = append(singles, &RenderCase{File: f1, Printer: p, Src: src, Names: []string{t.Name}, Envs: []rt.Env{{S0: "s", B0: true, O0: rt.Obj{ID: "i", Class: "oc"}}}, Jobs: []rt.Job{{Name: t.Name}}})
 		}
 	}
@@ -466,6 +494,7 @@ func c04(c *Ctx) {
 			m := metas[j.Name]
 			c.Rep.OracleCases++
 			c.dist("site." + m.site)
+			c.dist("layout." + [...]string{"one-line-lf", "multi-line-lf", "multi-line-crlf"}[m.layout])
 			c.distinct(m.site + "\x00" + m.s)
 			trigger := "plain"
 			switch {
@@ -490,7 +519,7 @@ func c04(c *Ctx) {
 			}
 			if vd, ok := judge(rc, ji); ok && vd.kind != "" {
 				// escaped positions are compared once entities are decoded (token level); raw positions byte for byte
-				if siteEscaped[m.site] && vd.kind == "whitespace" {
+				if siteEscaped[m.site] && vd.kind == "whitespace" && html.UnescapeString(vd.got) == html.UnescapeString(vd.want) {
 					continue
 				}
 				report("altered", fmt.Sprintf("rendered %q, expected %q", clip(vd.got, 100), clip(vd.want, 100)))
